@@ -134,6 +134,13 @@ func rmain() (code int) {
 			}
 		}
 	}
+	if want := os.Getenv("CRS_DUMPFN"); "" != want {
+		for _, f := range p.funcs {
+			if strings.Contains(f.String(), want) {
+				f.WriteTo(os.Stdout)
+			}
+		}
+	}
 	d.Run(p, r)
 	if *dumpObs {
 		for _, o := range r.Obs {
